@@ -49,7 +49,15 @@ def run(ctx):
     FROM_FEN = B + "::from_fen"
     FROM_STR = "<%s as core::str::traits::FromStr>::from_str" % B
     # ------------------------------------------------------------------ totality
-    stages = g.stages(FROM_FEN)
+    stages = list(g.stages(FROM_FEN))
+    # stages a stage delegates part of its field to (e.g. one row of the placement) count as stages too
+    work_ = list(stages)
+    while work_:
+        for s_ in g.stages(work_.pop()):
+            if s_ not in stages:
+                stages.append(s_)
+                work_.append(s_)
+    stages = sorted(stages)
     placement_stage = g.stage_for(FROM_FEN, "placement")
     side_stage = g.stage_for(FROM_FEN, "side")
     # the table key of the placement stage's column counter follows the stage's current name
